@@ -103,11 +103,12 @@ class PairSim(Sim):
         self.journals = {"A": self.make_journal("A"), "B": self.make_journal("B")}
         self.net.register(HOST, PORT, "B", "A")
         self.eps = {}
+        cli, srv = cfg.get("comp_ids", ("CLI", "SRV"))  # C02 also draws CompIDs outside ASCII (wire.make_config)
         self.eps["B"] = make_endpoint(
-            self, SimServer, "B", "SRV", "CLI", self.journals["B"], HOST, PORT, cfg["hb"]
+            self, SimServer, "B", srv, cli, self.journals["B"], HOST, PORT, cfg["hb"]
         )
         self.eps["A"] = make_endpoint(
-            self, SimClient, "A", "CLI", "SRV", self.journals["A"], HOST, PORT, cfg["hb"]
+            self, SimClient, "A", cli, srv, self.journals["A"], HOST, PORT, cfg["hb"]
         )
         self.sends = {"A": [], "B": []}  # per side: dict(k, mid, status, fp, ev_start, ev_end)
         self.inprogress = 0
